@@ -34,6 +34,9 @@ TYPES = [
     ('tlsrpt', 'dnsrec.txt.DnsRecordTxtValueTlsRpt', ';', ' ', '=', 1, [],
      ['v=TLSRPTv1; rua=mailto:tlsrpt@example.com', 'v=TLSRPTv1; rua=https://example.com/report']),
     ('spf', 'dnsrec.txt.DnsRecordTxtValueSpf', ' ', '', '\x00', 1, [], ['v=spf1 a mx -all', 'v=spf1 ip4:192.0.2.0/24 ~all', 'v=spf1 -all']),
+    ('nel', 'httpx.header.HttpHeaderFieldValueNetworkErrorLogging', ',', ' ', ':', 0, [],
+     ['{"report_to": "network-errors", "max_age": 86400, "include_subdomains": true}', '{"report_to": "nel", "max_age": 1}',
+      '{"report_to": "x", "max_age": 2592000, "include_subdomains": false, "success_fraction": 0.5, "failure_fraction": 1.0}']),
     ('block', 'httpx.header.HttpHeaderFields', '\r\n', '', ':', 0, [],
      ['Strict-Transport-Security: max-age=1\r\nX-Frame-Options: DENY\r\nX-Unknown-Header: some value\r\n\r\n',
       'Content-Type: text/html\r\nServer: nginx\r\n\r\n', 'X-Custom: 1\r\n\r\n']),
@@ -45,18 +48,21 @@ def tokenise(t, text):
     body = text
     tail = ''
     eqpost = ''
+    head = ''
     if typ == 'block':
         body = text[:-4]
         tail = '\r\n\r\n'
         eqpost = ' '
+    if typ == 'nel':
+        body, head, tail, eqpost = text[1:-1], '{', '}', ' '
     parts = body.split(sep + gap) if body else []
     dirs = []
     for p in parts:
         if eq != '\x00' and eq in p:
             name, val = p.split(eq, 1)
-            if typ == 'block':
+            if typ in ('block', 'nel'):
                 val = val[1:] if val.startswith(' ') else val
-            quoted = len(val) >= 2 and val[0] == '"' and val[-1] == '"'
+            quoted = typ != 'nel' and len(val) >= 2 and val[0] == '"' and val[-1] == '"'      # JSON: the quotes are part of the value
             if quoted:
                 val = val[1:-1]
             dirs.append({'name': list(name.encode()), 'hasval': True, 'val': list(val.encode()), 'quoted': quoted,
@@ -66,7 +72,7 @@ def tokenise(t, text):
     return {'type': typ, 'text': list(text.encode()), 'sep': list(sep.encode()), 'gap': list(gap.encode()), 'eq': ord(eq) if eq != '\x00' else 61,
             'eqpost': list(eqpost.encode()), 'tail': list(tail.encode()), 'fixed': fixed, 'deep': len(dirs) <= 4, 'dirs': dirs,
             'caseskip': 1 if typ in ('set_cookie', 'content_type', 'xxss') else 0,   # cookie-pair / media type / the bare flag are values, not names
-            'bareunknown': typ not in ('dmarc', 'mta_sts', 'tlsrpt')}
+            'bareunknown': typ not in ('dmarc', 'mta_sts', 'tlsrpt', 'nel'), 'head': list(head.encode()), 'qnames': typ == 'nel'}
 
 
 def strip_unknown(p):
